@@ -12,7 +12,9 @@ EXTENDS Integers, Sequences, FiniteSets, TLC, Json, Randomization
 CONSTANTS AccessSample, RouteSample, CredSample   \* 0 = everything, else size of a random subset
 
 (* ---------- host classes ---------- *)
-LocalHosts == {"lhName", "lhUpper", "lo4", "lo4b", "lo6", "unspec4", "unspec6", "unspec6b", "unspec6c", "mapped4", "lhAlias"}
+LocalHosts == {"lhName", "lhUpper", "lo4", "lo4b", "lo6", "unspec4", "unspec6", "unspec6b", "unspec6c", "mapped4", "lhAlias",
+               \* IPv4-mapped IPv6 spellings of loopback / unspecified (dialled as the IPv4 address, i.e. the proxy host itself)
+               "mapped4hex", "mappedUnspec", "mappedUnspecHex", "mappedUnspecLong"}
 HostClasses == {"origin",      \* ordinary name, matches nothing
                 "denied",      \* matches a deny-domains include rule
                 "denyExcl",    \* matches an include rule and a '-' exclude rule
@@ -97,16 +99,20 @@ Decide(cfg, r) ==
              status |-> 0, challenge |-> FALSE, hop |-> hop, dial |-> DialTo(cfg.ct)]
 
 (* ---------- generators ---------- *)
+\* position on a keep-alive connection: first, after a forwarded request, after a refused one - which may have carried a
+\* body (Content-Length or chunked) that reads like a request of its own and must not be taken for the next request
+AfterRefused == {"afterRefused", "afterRefusedBodyCL", "afterRefusedBodyChunked"}
+Positions == {"first", "afterOK"} \cup AfterRefused
 NoUp == [t |-> "none", v |-> "-"]
 AccessKinds == {"GET", "GET10", "POST", "CONNECT", "MITMGET"}
 AccessCfgs == [tf : {"off", "in", "out"}, auth : BOOLEAN, lh : {"deny", "allow"}, deny : BOOLEAN, dd : {FALSE},
                up : {NoUp, [t |-> "static", v |-> "HTTP_A"]}, ct : {"none"}]
 AccessReqs == [kind : AccessKinds, host : HostClasses \ {"direct", "directExcl"}, cred : CredClasses,
-               via : {"none", "ownOnly"}, pos : {"first", "afterOK", "afterRefused"}]
+               via : {"none", "ownOnly"}, pos : Positions]
 AccessOK(c, r) ==
   /\ (r.cred # "none" => c.auth)                 \* credentials only matter with auth on
   /\ (r.host \in {"denied", "denyExcl"} => c.deny)
-  /\ (r.pos = "afterRefused" => (c.auth \/ c.deny \/ c.lh = "deny" \/ c.tf = "out"))
+  /\ (r.pos \in AfterRefused => (c.auth \/ c.deny \/ c.lh = "deny" \/ c.tf = "out"))
   /\ (r.pos = "afterOK" => c.tf # "out")
 AccessAll == {x \in AccessCfgs \X AccessReqs : AccessOK(x[1], x[2])}
 
@@ -166,7 +172,7 @@ NoAuthNoForward == gen = "cred" \/ ((cfg.auth /\ ~CredOK(req.cred) /\ ~CredOpen(
 RejectHasNoHop == gen = "cred" \/ (out.o \in {"reject", "fail"} => out.dial = "none")
 LoopRefused == gen = "cred" \/ ((ViaLoop(req.via) /\ out.o # "reject") => FALSE)
 ChallengeOnlyOn407 == gen = "cred" \/ (out.challenge <=> (out.o = "reject" /\ out.status = 407))
-PositionIrrelevant == gen = "cred" \/ (\A p \in {"first", "afterOK", "afterRefused"} : Decide(cfg, [req EXCEPT !.pos = p]) = out)
+PositionIrrelevant == gen = "cred" \/ (\A p \in Positions : Decide(cfg, [req EXCEPT !.pos = p]) = out)
 FirstIsInFailSet == gen = "cred" \/ (out.o = "reject" => out.status \in FailSet(cfg, req))
 \* C06 meta-properties: the client's own Authorization always wins; a more specific entry wins
 ClientAuthzWins == gen = "cred" /\ HasOwnAuthz(req.shape) => out.siteAuth = "client"
